@@ -28,6 +28,19 @@ Print Assumptions C12_registry.
    guarded): carrier with a raising hook -> OKeyErr, not "no suitable variant" *)
 Definition s_ke : site := Site [0] true false true false false false 0 0 false.
 Definition h_ke : list op := [Define [] [] [] [] false; Define [0] [(0, 1)] [] [] true].
+(* ... and so does its AttributeError (the other exception class the lookup handler names) *)
+Example C12_variant_attributeerror_surfaces :
+  snd (step acc_req [s_ke] (final acc_req [s_ke] h_ke) (Decode 0 [(0, Hashable 1)] [aerr_marker])) = Some (OAttrErr 1)
+  /\ field_spec acc_req (defs h_ke) s_ke 1 [aerr_marker] (OAttrErr 1).
+Proof.
+  split; [reflexivity|].
+  assert (U: tag_unique (defs h_ke) s_ke 1).
+  { apply (proj1 (tag_uniqueb_iff (defs h_ke) s_ke 1 (wf_defs h_ke) eq_refl)). reflexivity. }
+  destruct (C12_registry acc_req [s_ke] h_ke 0 s_ke [(0, Hashable 1)] 1 [aerr_marker] eq_refl eq_refl eq_refl eq_refl U
+              (fun c _ => eq_refl)) as [o [E S]].
+  vm_compute in E. injection E as <-. exact S.
+Qed.
+
 Example C12_variant_keyerror_surfaces :
   snd (step acc_req [s_ke] (final acc_req [s_ke] h_ke) (Decode 0 [(0, Hashable 1)] [kerr_marker])) = Some (OKeyErr 1)
   /\ snd (step acc_req [s_ke] (final acc_req [s_ke] h_ke) (Decode 0 [(0, Hashable 1)] [])) = Some (OInst 1).
@@ -52,6 +65,78 @@ Proof.
   exact (history_independent_ref acc sites pre1 pre2 i inp present E UA (no_crash_always sites)).
 Qed.
 Print Assumptions C12_history_independent_full.
+
+(* the relational theorems WITHOUT plain_carriers / no_nested (corollaries of C12_dispatch_ref): the unique class that
+   carries the tag is ENTERED - a plain class gives an instance or its own error, a class with its own class-level
+   discriminator answers through that dispatcher on the same input; nobody carries it -> SuitableVariantNotFound *)
+Theorem C12_registry_nested : forall acc sites pre i s inp t present o,
+  nth_error sites i = Some s -> s_field s = true -> site_ok s (length (defs pre)) = true ->
+  assoc (s_fid s) inp = Some (Hashable t) -> uniq_all sites (defs pre) inp ->
+  snd (step acc sites (final acc sites pre) (Decode i inp present)) = Some o ->
+  (forall c, carries (defs pre) s c t -> o = ref_enter acc sites (defs pre) (S (length (defs pre))) inp present c)
+  /\ ((forall c, ~ carries (defs pre) s c t) -> o = ONotFound).
+Proof. exact registry_nested. Qed.
+Print Assumptions C12_registry_nested.
+
+(* no-field mode with nested dispatchers of either mode among the variants: the first class in walk order (subclasses
+   before supertypes) whose entering yields an instance *)
+Theorem C12_nofield_nested : forall acc sites pre i s inp present,
+  nth_error sites i = Some s -> s_field s = false -> site_ok s (length (defs pre)) = true ->
+  uniq_all sites (defs pre) inp ->
+  snd (step acc sites (final acc sites pre) (Decode i inp present))
+  = Some (ref_loop (ref_enter acc sites (defs pre) (S (length (defs pre))) inp present) (variants (defs pre) s)).
+Proof. exact nofield_nested. Qed.
+Print Assumptions C12_nofield_nested.
+
+(* FORMATS.  A class whose mixins provide from_msgpack / orjson's from_json / ... gets one dispatcher per format; the
+   dispatchers of a class-level discriminator share ONE registry attribute (__mashumaro_subtype_variants__), but every
+   variant needs its OWN method of that format (__mashumaro_from_dict_<format>__), which only a refill (or a no-field
+   loop) compiles: a registered variant without it is a miss (raise AttributeError -> refill -> retry).  State: [comp]
+   (class, format) pairs, [cur] the format of the running call.  After ANY history - calls in any formats interleaved
+   with definitions - a call in ANY format answers the registry-free reference, under the same single hypothesis. *)
+Theorem C12_dispatch_ref_fmt : forall acc sites pre f i inp present,
+  uniq_all sites (defs pre) inp ->
+  snd (step acc sites (final acc sites pre) (DecodeF f i inp present)) = Some (ref_decode acc sites (defs pre) i inp present).
+Proof. intros acc sites pre f i inp present UA. exact (decode_ref_fmt acc sites pre f i inp present UA (no_crash_always sites)). Qed.
+Print Assumptions C12_dispatch_ref_fmt.
+
+(* the format of the call and the formats of all earlier calls are irrelevant *)
+Theorem C12_format_independent : forall acc sites pre1 pre2 f1 f2 i inp present,
+  defs pre1 = defs pre2 -> uniq_all sites (defs pre1) inp ->
+  snd (step acc sites (final acc sites pre1) (DecodeF f1 i inp present))
+  = snd (step acc sites (final acc sites pre2) (DecodeF f2 i inp present))
+  /\ snd (step acc sites (final acc sites pre1) (DecodeF f1 i inp present))
+     = snd (step acc sites (final acc sites pre2) (Decode i inp present)).
+Proof.
+  intros acc sites pre1 pre2 f1 f2 i inp present E UA.
+  exact (format_independent acc sites pre1 pre2 f1 f2 i inp present E UA (no_crash_always sites)).
+Qed.
+Print Assumptions C12_format_independent.
+
+(* between two calls the "format of the running call" is 0: a plain Decode always runs the format-0 dispatcher *)
+Theorem C12_format_reset : forall acc sites ops, cur (final acc sites ops) = 0.
+Proof. exact final_cur. Qed.
+Print Assumptions C12_format_reset.
+
+(* non-vacuity (and the reason [comp] is part of the state): class-level root 0, subclass 1 tagged 1, from_dict fills
+   the shared registry; subclass 2 arrives with the SAME tag (outside the property: not unique).  from_dict keeps
+   answering the stale class 1; from_msgpack finds class 1 registered but WITHOUT its own msgpack method -> miss ->
+   refill -> class 2; and from then on from_dict answers class 2 as well.  (Observed on the real library.)
+   With a unique tag (class 3, tag 7) every format gives class 3, and class 3 then has its msgpack method. *)
+Definition s_cfg : site := Site [0] true false true false true false 0 0 false.
+Definition h_fmt : list op :=
+  [Define [] [] [] [] false; Define [0] [(0, 1)] [] [] false; Decode 0 [(0, Hashable 1)] [];
+   Define [0] [(0, 1)] [] [] false; Define [0] [(0, 7)] [] [] false].
+Example C12_format_nonvacuous :
+  snd (step acc_req [s_cfg] (final acc_req [s_cfg] h_fmt) (Decode 0 [(0, Hashable 1)] [])) = Some (OInst 1)
+  /\ snd (step acc_req [s_cfg] (final acc_req [s_cfg] h_fmt) (DecodeF 1 0 [(0, Hashable 1)] [])) = Some (OInst 2)
+  /\ snd (step acc_req [s_cfg] (final acc_req [s_cfg] (h_fmt ++ [DecodeF 1 0 [(0, Hashable 1)] []])) (Decode 0 [(0, Hashable 1)] [])) = Some (OInst 2)
+  /\ uniq_allb [s_cfg] (defs h_fmt) [(0, Hashable 7)] = true
+  /\ snd (step acc_req [s_cfg] (final acc_req [s_cfg] h_fmt) (DecodeF 2 0 [(0, Hashable 7)] [])) = Some (OInst 3)
+  /\ ref_decode acc_req [s_cfg] (defs h_fmt) 0 [(0, Hashable 7)] [] = OInst 3
+  /\ comp (final acc_req [s_cfg] (h_fmt ++ [DecodeF 2 0 [(0, Hashable 7)] []])) = [(1, 2); (2, 2); (3, 2)]
+  /\ has_method false (set_cur 2 (final acc_req [s_cfg] h_fmt)) 1 = false.
+Proof. vm_compute. repeat split. Qed.
 
 Theorem C12_uniq_all_decidable : forall sites ops inp, uniq_allb sites (defs ops) inp = true -> uniq_all sites (defs ops) inp.
 Proof. intros sites ops inp. apply uniq_allb_sound, wf_defs. Qed.
@@ -282,3 +367,16 @@ Example C12_dispatch_ref_nonvacuous :
   /\ ref_decode acc_req sites_mix (defs h_mix) 1 [(0, Hashable 2)] [9] = OInst 5
   /\ ref_decode acc_req sites_mix (defs h_mix) 0 [(0, Hashable 2)] [] = ORej 5.
 Proof. vm_compute. repeat split. Qed.
+
+(* non-vacuity of C12_registry_nested: in h_mix the class carrying tag 1 at the root (class 1) is a NO-FIELD dispatcher;
+   the theorem pins the answer to that dispatcher's answer (class 3 for fields {8}) *)
+Example C12_registry_nested_nonvacuous :
+  carries (defs h_mix) (Site [0] true false true false true false 0 0 false) 1 1
+  /\ ref_enter acc_req sites_mix (defs h_mix) (S (length (defs h_mix))) [(0, Hashable 1)] [8] 1 = OInst 3
+  /\ snd (step acc_req sites_mix (final acc_req sites_mix h_mix) (Decode 0 [(0, Hashable 1)] [8])) = Some (OInst 3).
+Proof.
+  split; [|vm_compute; split; reflexivity].
+  split; [|exists (Cls [0] [(0, 1)] [] [] false); split; [reflexivity | left; reflexivity]].
+  left. split; [reflexivity|]. exists 0. split; [left; reflexivity|].
+  apply desc_child. exists (Cls [0] [(0, 1)] [] [] false). split; [reflexivity | left; reflexivity].
+Qed.
